@@ -1,281 +1,237 @@
-"""Fail-closed translator: `apply_esubst` and `apply_ssubst` of rust/src/lib.rs -> coq/Gen/SubstFns.v.
+"""Fail-closed translator: `apply_esubst` / `apply_ssubst` of rust/src/lib.rs -> coq/Gen/SubstFns.v  (expression level).
 
-Accepted shape (anything else aborts):
-  fn NAME(pattern: &Rc<Pattern>, VAR: Id, plug: &Rc<Pattern>) -> Rc<Pattern> {
-      let wrap_subst = || CTOR(Rc::clone(pattern), VAR, Rc::clone(plug));
-      match pattern.as_ref() { ARM* }
-  }
-  ARM  := PAT [if *V == VAR] => BODY ,
-  BODY := EXPR | { [assert!(COND, ...);] EXPR } | { if *V == VAR { EXPR } else { EXPR } }
-  EXPR := Rc::clone(plug|pattern) | wrap_subst() | ctor(args) | NAME(x, VAR, plug) | *V
-Output: Gallina functions returning option pat (assert failure = None).
+The function is `[let CLOSURE = || EXPR;]* match pattern.as_ref() { ARMS }`. Arms may be guarded (`PAT if COND`), alternatives (`A | B | C`) or the
+wildcard; they are compiled, per constructor of [pat], into the first-match semantics of Rust (`if guard then body else <next applicable arm>`).
+Bodies are expressions or blocks of `let x = EXPR;` / `assert!(COND, ..)` / `if !COND { panic!(..) }` followed by a tail expression or an
+`if C { E } else { E }`; expressions are built from `Rc::clone(plug|pattern)`, the pattern constructors, recursive calls, closure calls and bound
+names. A panic (failed assert) is `None`, and so is a panic of a recursive call. Renaming, reordering independent arms, introducing locals or
+inlining the closure do not change the generated function beyond bound names; a dropped assert, a changed guard or a different constructor does.
 """
 import os
 import re
 import sys
 
 sys.path.insert(0, os.path.dirname(os.path.abspath(__file__)))
-from rust_judge import CTOR, tokenize, fail as _fail  # noqa: E402
+from rust_exec import norm, find_fn, split_stmts, split_arms, split_top, match_close  # noqa: E402
 
 
 def fail(msg):
     raise SystemExit('rust_subst translator: ' + msg)
 
 
-BUILD = {'implies': 'Imp', 'app': 'App', 'exists': 'Ex', 'mu': 'Mu', 'esubst': 'ESub', 'ssubst': 'SSub'}
+CTORS = [('EVar', 'EVar', ['0']), ('SVar', 'SVar', ['0']), ('Symbol', 'Sym', ['0']), ('Implies', 'Imp', ['left', 'right']),
+         ('App', 'App', ['left', 'right']), ('Exists', 'Ex', ['var', 'subpattern']), ('Mu', 'Mu', ['var', 'subpattern']),
+         ('MetaVar', 'MVar', ['id', 'e_fresh', 's_fresh', 'positive', 'negative', 'app_ctx_holes']),
+         ('ESubst', 'ESub', ['pattern', 'evar_id', 'plug']), ('SSubst', 'SSub', ['pattern', 'svar_id', 'plug'])]
+CONS = {'implies': ('Imp', 2), 'app': ('App', 2), 'exists': ('Ex', 2), 'mu': ('Mu', 2), 'evar': ('EVar', 1), 'svar': ('SVar', 1),
+        'symbol': ('Sym', 1), 'esubst': ('ESub', 3), 'ssubst': ('SSub', 3)}
 
 
-def find_free_fn(src, name):
-    m = re.search(r'\nfn ' + name + r'\(', src)
+def parse_alt(alt):
+    """one alternative of an arm pattern -> (rust ctor name or '_', {local name: field})"""
+    alt = alt.strip()
+    if alt == '_':
+        return '_', {}
+    m = re.fullmatch(r'Pattern::(\w+)\((\w+)\)', alt)
+    if m:
+        return m.group(1), ({} if m.group(2) == '_' else {m.group(2): '0'})
+    m = re.fullmatch(r'Pattern::(\w+) \{ ?(.*?) ?\}', alt)
+    if m:
+        bind = {}
+        for g in [x.strip() for x in m.group(2).split(',')]:
+            if g == '..' or not g:
+                continue
+            if ':' in g:
+                k, val = [x.strip() for x in g.split(':', 1)]
+            else:
+                k = val = g
+            if val != '_':
+                bind[val] = k
+        return m.group(1), bind
+    fail('unrecognised arm pattern: ' + alt)
+
+
+class Fn:
+    def __init__(self, name, var, closures):
+        self.name, self.var, self.closures = name, var, closures
+        self.n = 0
+
+    def tmp(self):
+        self.n += 1
+        return f'r{self.n}'
+
+    def expr(self, e, env, pre):
+        e = e.strip()
+        m = re.fullmatch(r'Rc::clone\(&?(\w+)\)', e) or re.fullmatch(r'(\w+)\.clone\(\)', e) or re.fullmatch(r'&(\w+)', e) or re.fullmatch(r'\*(\w+)', e)
+        if m:
+            return self.name_of(m.group(1), env)
+        if re.fullmatch(r'[a-z_]\w*', e):
+            return self.name_of(e, env)
+        m = re.fullmatch(r'(\w+)\((.*)\)', e)
+        if m and match_close(e, len(m.group(1))) == len(e) - 1:
+            f, args = m.group(1), split_top(m.group(2))
+            if f in self.closures and args == []:
+                return self.expr(self.closures[f], env, pre)
+            if f in CONS:
+                c, ar = CONS[f]
+                if len(args) != ar:
+                    fail(f'{f} applied to {len(args)} arguments')
+                return '(' + c + ' ' + ' '.join(self.expr(a, env, pre) for a in args) + ')'
+            if f == self.name and len(args) == 3:
+                a = [self.expr(x, env, pre) for x in args]
+                if a[1] != 'f_' + self.var or a[2] != 'plug':
+                    fail(f'recursive call with other arguments: {e}')
+                t = self.tmp()
+                pre.append((t, f'gen_{self.name} {a[0]} {a[1]} {a[2]}'))
+                return t
+            fail('unknown function in expression: ' + e[:80])
+        fail('unrecognised expression: ' + e[:100])
+
+    def name_of(self, x, env):
+        if x == 'plug':
+            return 'plug'
+        if x == 'pattern':
+            return 'p'
+        if x == self.var:
+            return 'f_' + self.var
+        if x in env:
+            return env[x]
+        fail('unbound name ' + x)
+
+    def wrap(self, pre, body):
+        for t, call in reversed(pre):
+            body = f'match {call} with Some {t} => {body} | None => None end'
+        return body
+
+    def cond(self, c, env):
+        c = c.strip()
+        parts = split_top(c.replace('&&', '\x00'), '\x00')
+        if len(parts) > 1:
+            return '(' + ' && '.join(self.cond(x, env) for x in parts) + ')'
+        parts = split_top(c.replace('||', '\x00'), '\x00')
+        if len(parts) > 1:
+            return '(' + ' || '.join(self.cond(x, env) for x in parts) + ')'
+        if c.startswith('!'):
+            return f'(negb {self.cond(c[1:], env)})'
+        if c.startswith('(') and match_close(c, 0) == len(c) - 1:
+            return self.cond(c[1:-1], env)
+        m = re.fullmatch(r'\*?(\w+) (==|!=) \*?(\w+)', c)
+        if m:
+            a, b = self.name_of(m.group(1), env), self.name_of(m.group(3), env)
+            r = f'(N.eqb {a} {b})'
+            return r if m.group(2) == '==' else f'(negb {r})'
+        m = re.fullmatch(r'(\w+)\.(e_fresh|s_fresh)\(\*?(\w+)\)', c)
+        if m:
+            return f'({m.group(2)} {self.name_of(m.group(1), env)} {self.name_of(m.group(3), env)})'
+        fail('unrecognised condition: ' + c[:100])
+
+    def body(self, text, is_block, env):
+        """-> Coq term of type option pat"""
+        stmts = split_stmts(text) if is_block else [text]
+        return self.block(stmts, dict(env))
+
+    def block(self, stmts, env):
+        if not stmts:
+            fail('block without a value')
+        s = stmts[0].strip().rstrip(';').strip()
+        more = stmts[1:]
+        m = re.fullmatch(r'assert!\((.*)\)', s)
+        if m:
+            c = split_top(m.group(1))[0]
+            return f'if {self.cond(c, env)} then {self.block(more, env)} else None'
+        m = re.fullmatch(r'if (.*?) \{ (?:panic|unreachable)!\(.*\);? \}', s)
+        if m and more:
+            return f'if {self.cond(m.group(1), env)} then None else {self.block(more, env)}'
+        m = re.fullmatch(r'let (\w+) = (.*)', s)
+        if m:
+            pre = []
+            e = self.expr(m.group(2), env, pre)
+            env2 = dict(env)
+            env2[m.group(1)] = 'l_' + m.group(1)
+            return self.wrap(pre, f'let l_{m.group(1)} := {e} in {self.block(more, env2)}')
+        if more:
+            fail('statement before the tail expression not recognised: ' + s[:120])
+        # tail
+        if s.startswith('return '):
+            s = s[len('return '):]
+        if s.startswith('if '):
+            i = s.index('{')
+            j = match_close(s, i)
+            tail = s[j + 1:].strip()
+            if not tail.startswith('else'):
+                fail('if without else as a value: ' + s[:100])
+            k = tail.index('{')
+            if match_close(tail, k) != len(tail) - 1:
+                fail('else block: ' + tail[:80])
+            return (f'if {self.cond(s[3:i], env)} then {self.block(split_stmts(s[i + 1:j]), env)} '
+                    f'else {self.block(split_stmts(tail[k + 1:-1]), env)}')
+        if re.fullmatch(r'(panic|unreachable|unimplemented)!\(.*\)', s):
+            return 'None'
+        pre = []
+        e = self.expr(s, env, pre)
+        return self.wrap(pre, f'Some {e}')
+
+
+def translate(src, name):
+    fn = norm(find_fn(src, name))
+    m = re.fullmatch(r'fn ' + name + r'\(pattern: &Rc<Pattern>, (\w+): Id, plug: &Rc<Pattern>\) -> Rc<Pattern> \{ (.*) \}', fn)
     if not m:
-        fail(f'fn {name} not found')
-    start = m.start() + 1
-    i = src.index('{', start)
-    depth, j = 0, i
+        fail(f'unexpected signature of {name}: ' + fn[:160])
+    var, body = m.groups()
+    closures = {}
     while True:
-        if src[j] == '{':
-            depth += 1
-        elif src[j] == '}':
-            depth -= 1
-            if depth == 0:
-                break
-        j += 1
-    return src[start:j + 1]
-
-
-class P:
-    def __init__(self, toks, fname):
-        self.t, self.i, self.fname = toks, 0, fname
-
-    def peek(self, k=0):
-        return self.t[self.i + k] if self.i + k < len(self.t) else None
-
-    def eat(self, x=None):
-        tok = self.peek()
-        if x is not None and tok != x:
-            fail(f'in fn {self.fname}: expected {x!r}, got {tok!r} (context {" ".join(self.t[max(0, self.i - 8):self.i + 4])})')
-        self.i += 1
-        return tok
-
-    def seq(self, *xs):
-        for x in xs:
-            self.eat(x)
-
-    def function(self):
-        self.eat('fn')
-        name = self.eat()
-        self.seq('(', 'pattern', ':', '&', 'Rc', '<', 'Pattern', '>', ',')
-        var = self.eat()
-        self.seq(':', 'Id', ',', 'plug', ':', '&', 'Rc', '<', 'Pattern', '>', ')', '->', 'Rc', '<', 'Pattern', '>', '{')
-        self.eat('let')
-        self.wrapname = self.eat()
-        self.seq('=', '||')
-        wrap = self.eat()
-        self.seq('(', 'Rc', '::', 'clone', '(', 'pattern', ')', ',')
-        self.eat(var)
-        self.seq(',', 'Rc', '::', 'clone', '(', 'plug', ')', ')', ';')
-        if wrap not in ('esubst', 'ssubst'):
-            fail(f'wrap_subst builds {wrap}')
-        self.seq('match', 'pattern', '.', 'as_ref', '(', ')', '{')
-        arms = []
-        while self.peek() != '}':
-            arms.append(self.arm(name, var))
-        self.seq('}', '}')
-        return name, var, wrap, arms
-
-    def arm(self, fn, var):
-        if self.peek() == '_':
-            self.eat()
-            pat = ('_',)
-        else:
-            self.seq('Pattern', '::')
-            c = self.eat()
-            fields = {}
-            if self.peek() == '(':
-                self.eat('(')
-                fields['0'] = self.eat()
-                self.eat(')')
-            else:
-                self.eat('{')
-                while self.peek() != '}':
-                    tok = self.eat()
-                    if tok != '..':
-                        if tok not in CTOR[c][1]:
-                            fail(f'unknown field {tok} of {c}')
-                        fields[tok] = tok
-                    if self.peek() == ',':
-                        self.eat(',')
-                self.eat('}')
-            pat = (c, fields)
+        cm = re.match(r'let (\w+) = \|\| (.*?); (?=let |match )', body)
+        if not cm:
+            break
+        closures[cm.group(1)] = cm.group(2)
+        body = body[cm.end():]
+    mm = re.fullmatch(r'(?:return )?match pattern\.as_ref\(\) \{ (.*) \};?', body)
+    if not mm:
+        fail(f'{name}: body is not closures + one match on pattern.as_ref(): ' + body[:160])
+    arms = []
+    for pat, text, is_block in split_arms(mm.group(1)):
         guard = None
-        if self.peek() == 'if':
-            self.eat('if')
-            self.eat('*')
-            g = self.eat()
-            self.eat('==')
-            self.eat(var)
-            guard = g
-        self.eat('=>')
-        body = self.body(fn, var)
-        if self.peek() == ',':
-            self.eat(',')
-        return pat, guard, body
-
-    def body(self, fn, var):
-        if self.peek() != '{':
-            return self.expr(fn, var)
-        self.eat('{')
-        if self.peek() == 'if':
-            self.eat('if')
-            self.eat('*')
-            v = self.eat()
-            self.eat('==')
-            self.eat(var)
-            self.eat('{')
-            a = self.expr(fn, var)
-            self.seq('}', 'else', '{')
-            b = self.expr(fn, var)
-            self.seq('}', '}')
-            return ('ifeq', v, a, b)
-        cond = None
-        if self.peek() == 'assert':
-            self.seq('assert', '!', '(', 'plug', '.')
-            m = self.eat()
-            if m not in ('e_fresh', 's_fresh'):
-                fail(f'assert on unknown method {m}')
-            self.seq('(', '*')
-            v = self.eat()
-            self.eat(')')
-            depth = 1
-            while depth:                # message and its arguments
-                t = self.eat()
-                depth += (t == '(') - (t == ')')
-            self.eat(';')
-            cond = (m, v)
-        e = self.expr(fn, var)
-        self.eat('}')
-        return ('assert', cond, e) if cond else e
-
-    def expr(self, fn, var):
-        tok = self.eat()
-        if tok == 'Rc':
-            self.seq('::', 'clone', '(')
-            x = self.eat()
-            self.eat(')')
-            if x not in ('plug', 'pattern'):
-                fail(f'Rc::clone({x})')
-            return ('clone', x)
-        if tok == getattr(self, 'wrapname', 'wrap_subst'):
-            self.seq('(', ')')
-            return ('wrap',)
-        if tok == fn:
-            self.eat('(')
-            x = self.eat()
-            self.eat(',')
-            self.eat(var)
-            self.seq(',', 'plug', ')')
-            return ('rec', x)
-        if tok in BUILD:
-            self.eat('(')
-            args = []
-            while self.peek() != ')':
-                if self.peek() == '*':
-                    self.eat('*')
-                    args.append(('id', self.eat()))
-                else:
-                    args.append(self.expr(fn, var))
-                if self.peek() == ',':
-                    self.eat(',')
-            self.eat(')')
-            return ('build', BUILD[tok], args)
-        fail(f'in fn {fn}: unexpected expression token {tok!r}')
-
-
-def V(n):
-    return 'f_' + n
-
-
-def emit_expr(e, fn, var, wrap):
-    """returns Gallina of type option pat"""
-    k = e[0]
-    if k == 'clone':
-        return 'Some ' + ('plug' if e[1] == 'plug' else 'p')
-    if k == 'wrap':
-        return f'Some ({BUILD[wrap]} p {V(var)} plug)'
-    if k == 'rec':
-        return f'gen_{fn} {V(e[1])} {V(var)} plug'
-    if k == 'build':
-        ctor, args = e[1], e[2]
-        binds, names = [], []
-        for i, a in enumerate(args):
-            if a[0] == 'id':
-                names.append(V(a[1]))
-            else:
-                nm = f'r{i}'
-                binds.append((nm, emit_expr(a, fn, var, wrap)))
-                names.append(nm)
-        out = f'Some ({ctor} {" ".join(names)})'
-        for nm, ex in reversed(binds):
-            out = f'match {ex} with Some {nm} => {out} | None => None end'
-        return out
-    if k == 'ifeq':
-        return f'if N.eqb {V(e[1])} {V(var)} then {emit_expr(e[2], fn, var, wrap)} else {emit_expr(e[3], fn, var, wrap)}'
-    if k == 'assert':
-        m, v = e[1]
-        return f'if {m} plug {V(v)} then {emit_expr(e[2], fn, var, wrap)} else None'
-    fail(f'cannot emit {k}')
-
-
-def gen(fn, var, wrap, arms):
-    """guarded arms are merged with the following unguarded arm of the same constructor"""
-    lines = [f'Fixpoint gen_{fn} (p:pat) ({V(var)}:N) (plug:pat) {{struct p}} : option pat :=', '  match p with']
-    i = 0
-    seen = set()
-    default = None
-    while i < len(arms):
-        pat, guard, body = arms[i]
-        if pat == ('_',):
-            if guard:
-                fail('guard on wildcard arm')
-            default = emit_expr(body, fn, var, wrap)
-            i += 1
-            continue
-        c, fields = pat
-        coq, order = CTOR[c]
-        if c in seen:
-            fail(f'constructor {c} matched twice without guard structure')
-        if guard:
-            if i + 1 >= len(arms) or arms[i + 1][0] == ('_',) or arms[i + 1][0][0] != c or arms[i + 1][1]:
-                fail(f'guarded arm for {c} not followed by an unguarded arm of the same constructor')
-            pat2, _, body2 = arms[i + 1]
-            allf = dict(pat2[1])
-            allf.update(fields)
-            lhs = coq + ''.join(' ' + (V(allf[f]) if f in allf else '_') for f in order)
-            rhs = f'if N.eqb {V(guard)} {V(var)} then {emit_expr(body, fn, var, wrap)} else {emit_expr(body2, fn, var, wrap)}'
-            i += 2
-        else:
-            lhs = coq + ''.join(' ' + (V(fields[f]) if f in fields else '_') for f in order)
-            rhs = emit_expr(body, fn, var, wrap)
-            i += 1
-        seen.add(c)
-        lines.append(f'  | {lhs} => {rhs}')
-    if default is not None:
-        lines.append(f'  | _ => {default}')
-    lines.append('  end.')
-    return '\n'.join(lines)
+        if ' if ' in pat:
+            pat, guard = pat.split(' if ', 1)
+        alts = [parse_alt(a) for a in split_top(pat, '|')]
+        arms.append((alts, guard, text, is_block))
+    f = Fn(name, var, closures)
+    out = []
+    for rust, coq, fields in CTORS:
+        cvars = ['c_' + x for x in fields]
+        code = None
+        chain = []
+        for alts, guard, text, is_block in arms:
+            hit = [b for (c, b) in alts if c == rust or c == '_']
+            if not hit:
+                continue
+            if len(alts) > 1 and any(b for (_, b) in alts):
+                fail(f'{name}: alternatives that bind names')
+            env = {loc: 'c_' + fld for loc, fld in hit[0].items()}
+            for fld in env.values():
+                if fld not in cvars:
+                    fail(f'{name}: field {fld} of {rust}')
+            b = f.body(text, is_block, env)
+            if guard is None:
+                chain.append((None, b))
+                break
+            chain.append((f.cond(guard, env), b))
+        if not chain or chain[-1][0] is not None:
+            fail(f'{name}: no unguarded arm covers {rust}')
+        code = chain[-1][1]
+        for g, b in reversed(chain[:-1]):
+            code = f'if {g} then {b} else {code}'
+        out.append(f'  | {coq} {" ".join(cvars)} => {code}')
+    return (f'Fixpoint gen_{name} (p:pat) (f_{var}:N) (plug:pat) {{struct p}} : option pat :=\n  match p with\n' + '\n'.join(out) + '\n  end.\n')
 
 
 def generate(repo):
     src = open(os.path.join(repo, 'rust/src/lib.rs')).read()
-    out = ['(** GENERATED by translators/rust_subst.py from rust/src/lib.rs (apply_esubst, apply_ssubst) — do not edit *)',
-           'From Coq Require Import NArith List Bool.', 'From Pi2 Require Import ML.Syntax.', 'Import ListNotations.', 'Open Scope N_scope.', '']
-    for fn in ('apply_esubst', 'apply_ssubst'):
-        p = P(tokenize(find_free_fn(src, fn)), fn)
-        name, var, wrap, arms = p.function()
-        if p.peek() is not None:
-            fail(f'in fn {fn}: trailing tokens')
-        out.append(gen(fn, var, wrap, arms) + '\n')
-    return '\n'.join(out)
+    src = src.split('\n#[cfg(test)]\nmod tests')[0]
+    lines = ['(** GENERATED by translators/rust_subst.py from rust/src/lib.rs (apply_esubst, apply_ssubst) — do not edit *)',
+             'From Coq Require Import NArith List Bool.', 'From Pi2 Require Import ML.Syntax.', 'Import ListNotations.', 'Open Scope N_scope.', '',
+             translate(src, 'apply_esubst'), translate(src, 'apply_ssubst')]
+    return '\n'.join(lines)
 
 
 if __name__ == '__main__':
